@@ -1,7 +1,7 @@
 """Shared input streams and configuration presets for the walker properties."""
 import json, os, random
 from vlib import gen
-from vlib.run import Cfg, run_lines, BUILD
+from vlib.run import Cfg, run_lines, BUILD, REPO
 
 KEY = bytes((i * 7 + 3) % 256 for i in range(64))
 
@@ -43,7 +43,7 @@ def value_cfgs(rng, n, with_ns=True):
 def fixture_lines():
     import glob
     out = []
-    for f in sorted(glob.glob('/repo/test_fixtures/*.json')):
+    for f in sorted(glob.glob(REPO + '/test_fixtures/*.json')):
         try:
             d = json.load(open(f))
         except Exception:
